@@ -129,6 +129,8 @@ type ontState struct {
 	D      polyenv.Dump
 	Stored map[uint32]string // model: height -> accepted event id
 	Keys   map[uint32]int    // model: key height -> set index
+	ok     bool              // outcome of the transaction that led here (not part of the key)
+	err    string
 }
 
 func (s ontState) clone() ontState {
@@ -229,14 +231,14 @@ func ontPart() mc.Stats {
 	peerPrefix := hsenv.HSPrefix("consensusPeer", ontChain)
 	khKey := hsenv.HSPrefix("keyHeights", ontChain)
 
-	check := func(s ontState, e *ontEvent, nd polyenv.Dump, res polyenv.Result, path []string) (accepted bool) {
+	check := func(s ontState, e *ontEvent, nd polyenv.Dump, txOK bool, txErr string, path []string) (accepted bool) {
 		dm := nd.Map()
 		_, accepted = dm[idxPrefix+string(utils.GetUint32Bytes(e.height))]
 		_, had := s.Stored[e.height]
 		changed := nd.String() != s.D.String()
 		detail := func(extra map[string]any) map[string]any {
 			d := map[string]any{"router": "ont", "path": path, "event": e.id, "header_hex": hex.EncodeToString(e.raw),
-				"model_key_heights": fmt.Sprint(s.Keys), "model_stored": fmt.Sprint(s.Stored), "tx_ok": res.OK, "tx_err": fmt.Sprint(res.Err)}
+				"model_key_heights": fmt.Sprint(s.Keys), "model_stored": fmt.Sprint(s.Stored), "tx_ok": txOK, "tx_err": txErr}
 			for k, v := range extra {
 				d[k] = v
 			}
@@ -284,7 +286,7 @@ func ontPart() mc.Stats {
 				r.Violation("ont:state-changed-without-accepted-header", detail(nil))
 			}
 			if found && e.variant == fmt.Sprintf("ok:S%d", s.Keys[k]) {
-				r.HarnessError("ont canonical header rejected: %s after %v: %v", e.id, path, res.Err)
+				r.HarnessError("ont canonical header rejected: %s after %v: %v", e.id, path, txErr)
 			}
 		}
 		return accepted
@@ -354,14 +356,22 @@ func ontPart() mc.Stats {
 			sim.Load(s.D)
 			res := sim.Exec(on.HeadersTx(ontChain, e.raw), 10, 1000)
 			r.Eval()
-			nd := sim.Dump()
 			n := s.clone()
-			n.D = nd
+			n.D = sim.Dump()
+			n.ok, n.err = res.OK, fmt.Sprint(res.Err)
+			_, had := s.Stored[e.height]
+			if _, in := n.D.Map()[idxPrefix+string(utils.GetUint32Bytes(e.height))]; in && !had {
+				n.Stored[e.height] = id
+				if e.cfg >= 0 {
+					n.Keys[e.height] = e.cfg
+				}
+			}
 			return n, true
 		},
-		Check: nil,
+		Check: func(prev ontState, id string, next ontState, path []string) {
+			check(prev, evs[id], next.D, next.ok, next.err, path)
+		},
 	})
-	_ = check
 	return st
 }
 
@@ -374,12 +384,292 @@ func keysOf(m map[uint32]string) []uint32 {
 	return k
 }
 
+// ---------------------------------------------------------------------------------------------
+// NEO / NEO N3
+
+type neoHdr struct {
+	index   uint32
+	next    int // set whose script hash is the header's NextConsensus
+	script  int // set whose script is the witness verification script (and whose keys sign)
+	variant string
+	dv      int // distinct members of set `script` with a valid signature in the invocation script
+}
+
+type neoEvent struct {
+	id   string
+	hdrs []neoHdr
+	raws [][]byte
+}
+
+type neoState struct {
+	D  polyenv.Dump
+	H  uint32 // model: tracked index
+	NC int    // model: tracked set
+}
+
+type neoKit struct {
+	name   string
+	router uint64
+	chain  uint64
+	extra  []byte
+	m, n   []int    // per set
+	hash   []string // per set: script hash bytes (as stored)
+	header func(index uint32, next, script int, list []on.Sig, salt uint64) []byte
+}
+
+func sigVariants(m, n int) map[string][]on.Sig {
+	seq := func(ks ...int) []on.Sig {
+		var l []on.Sig
+		for _, k := range ks {
+			l = append(l, on.Sig{K: k})
+		}
+		return l
+	}
+	rng := func(a, b int) []int { // a..b-1
+		var o []int
+		for i := a; i < b; i++ {
+			o = append(o, i)
+		}
+		return o
+	}
+	v := map[string][]on.Sig{}
+	v["ok"] = seq(rng(0, m)...)
+	v["under"] = seq(rng(0, m-1)...)
+	v["tail"] = seq(rng(n-m, n)...)
+	v["all"] = seq(rng(0, n)...)
+	var dup, rev []int
+	for i := 0; i < m; i++ {
+		dup = append(dup, 0)
+		rev = append(rev, m-1-i)
+	}
+	v["dup"] = seq(dup...)
+	v["reordered"] = seq(rev...)
+	v["foreign"] = append(seq(rng(0, m-1)...), on.Sig{Foreign: true})
+	v["badsig"] = append(seq(rng(0, m-1)...), on.Sig{K: m - 1, Bad: true})
+	return v
+}
+
+func distinctGood(l []on.Sig) int {
+	seen := map[int]bool{}
+	for _, e := range l {
+		if !e.Foreign && !e.Bad {
+			seen[e.K] = true
+		}
+	}
+	return len(seen)
+}
+
+func neoPart(k neoKit) mc.Stats {
+	depth := r.QT(3, 4)
+	names := []string{"A", "B", "C"}
+	var events []string
+	evs := map[string]*neoEvent{}
+	salt := uint64(1)
+	mk := func(index uint32, next, script int, vn string) (neoHdr, []byte) {
+		l := sigVariants(k.m[script], k.n[script])[vn]
+		salt++
+		return neoHdr{index, next, script, vn, distinctGood(l)}, k.header(index, next, script, l, salt)
+	}
+	vnames := []string{"ok", "under", "tail", "all", "dup", "reordered", "foreign", "badsig"}
+	for _, idx := range []uint32{3, 5, 8, 12} {
+		for next := 0; next < 3; next++ {
+			for script := 0; script < 3; script++ {
+				for _, vn := range vnames {
+					h, raw := mk(idx, next, script, vn)
+					e := &neoEvent{id: fmt.Sprintf("idx=%d/next=%s/witness=%s/%s", idx, names[next], names[script], vn), hdrs: []neoHdr{h}, raws: [][]byte{raw}}
+					events = append(events, e.id)
+					evs[e.id] = e
+				}
+			}
+		}
+	}
+	// two-header batches, both signed by A: ascending and descending index
+	h8, r8 := mk(8, 1, 0, "ok")
+	h12, r12 := mk(12, 2, 0, "ok")
+	for _, b := range []*neoEvent{{id: "batch[idx=8/next=B/witness=A/ok,idx=12/next=C/witness=A/ok]", hdrs: []neoHdr{h8, h12}, raws: [][]byte{r8, r12}},
+		{id: "batch[idx=12/next=C/witness=A/ok,idx=8/next=B/witness=A/ok]", hdrs: []neoHdr{h12, h8}, raws: [][]byte{r12, r8}}} {
+		events = append(events, b.id)
+		evs[b.id] = b
+	}
+	w := baseWorld()
+	must(on.RegisterSideChain(w, vals, k.chain, k.router, k.name, []byte{5, 0, 0, 0}, k.extra), "register "+k.name)
+	mustOK(w.Exec(on.GenesisTx(vals, k.chain, k.header(5, 0, 1, nil, 0)), 5, 500), k.name+" genesis")
+	init := neoState{D: w.Dump(), H: 5, NC: 0}
+	w.Close()
+	trackedKey := hsenv.HSPrefix("consensusPeer", k.chain)
+	decode := func(d polyenv.Dump) (uint32, string, bool) {
+		raw, ok := d.Map()[trackedKey]
+		if !ok {
+			return 0, "", false
+		}
+		x := item(raw)
+		x.u64()
+		h := x.u32()
+		nc := string(x.varbytes())
+		return h, nc, !x.bad
+	}
+	if h, nc, ok := decode(init.D); !ok || h != 5 || nc != k.hash[0] {
+		r.HarnessError("%s: genesis did not record (5, A): %v %x %v", k.name, h, nc, ok)
+	}
+	st := mc.BFS(mc.Config[neoState]{
+		Init: []neoState{init}, MaxDepth: depth, Workers: workers, Stop: r.Expired,
+		Key:    func(s neoState) string { return fmt.Sprintf("%d/%d|", s.H, s.NC) + s.D.String() },
+		Events: func(s neoState, d int) []string { return events },
+		Step: func(s neoState, id string) (neoState, bool) {
+			e := evs[id]
+			sim := sims.Get().(*hsenv.Sim)
+			defer sims.Put(sim)
+			sim.Load(s.D)
+			res := sim.Exec(on.HeadersTx(k.chain, e.raws...), 10, 1000)
+			r.Eval()
+			n := neoState{D: sim.Dump(), H: s.H, NC: s.NC}
+			if res.Panic != nil {
+				r.Class(k.name + ":panic")
+			}
+			h, nc, ok := decode(n.D)
+			if !ok {
+				n.H, n.NC = 0, -1
+				return n, true
+			}
+			n.H, n.NC = h, -1
+			for i, hx := range k.hash {
+				if hx == nc {
+					n.NC = i
+				}
+			}
+			return n, true
+		},
+		Check: func(prev neoState, id string, next neoState, path []string) {
+			e := evs[id]
+			changedTracked := prev.H != next.H || prev.NC != next.NC
+			detail := func() map[string]any {
+				var hx []string
+				for _, raw := range e.raws {
+					hx = append(hx, hex.EncodeToString(raw))
+				}
+				return map[string]any{"router": k.name, "path": path, "event": e.id, "headers_hex": hx,
+					"tracked_before": fmt.Sprintf("(index %d, set %d)", prev.H, prev.NC), "tracked_after": fmt.Sprintf("(index %d, set %d)", next.H, next.NC),
+					"tracked_threshold": k.m[prev.NC]}
+			}
+			if !changedTracked {
+				r.Class(k.name + ":no-change")
+				if next.D.String() != prev.D.String() {
+					r.Violation(k.name+":state-changed-without-tracked-validator-change", detail())
+				}
+				// canonical single header must be accepted
+				if len(e.hdrs) == 1 {
+					h := e.hdrs[0]
+					if h.index > prev.H && h.next != prev.NC && h.script == prev.NC && (h.variant == "ok" || h.variant == "tail" || h.variant == "all") {
+						r.HarnessError("%s canonical validator change rejected: %s after %v", k.name, e.id, path)
+					}
+				}
+				return
+			}
+			r.Class(k.name + ":change")
+			justified := false
+			var vk string
+			for _, h := range e.hdrs {
+				if h.index == next.H && h.next == next.NC {
+					vk = h.variant
+					if h.index > prev.H && h.script == prev.NC && h.dv >= k.m[prev.NC] {
+						justified = true
+					}
+				}
+			}
+			r.Case(fmt.Sprintf("%s/change/%s", k.name, vk))
+			if !justified {
+				why := "no-submitted-header-carries-the-new-state"
+				for _, h := range e.hdrs {
+					if h.index == next.H && h.next == next.NC {
+						switch {
+						case h.index <= prev.H:
+							why = "index-not-higher"
+						case h.script != prev.NC:
+							why = "witness-script-not-tracked"
+						default:
+							why = "not-enough-distinct-valid-signatures:" + h.variant
+						}
+					}
+				}
+				r.Violation(k.name+":validator-change-accepted:"+why, detail())
+			}
+		},
+	})
+	return st
+}
+
+func neoKitLegacy() neoKit {
+	out := polyenv.Key(299)
+	sets := []*on.NeoSet{on.NewNeoSet(3, polyenv.KeysFrom(200, 4), out), on.NewNeoSet(2, polyenv.KeysFrom(210, 3), out), on.NewNeoSet(3, polyenv.KeysFrom(220, 4), out)}
+	k := neoKit{name: "neo", router: utils.NEO_ROUTER, chain: 41}
+	for _, s := range sets {
+		k.m = append(k.m, s.M)
+		k.n = append(k.n, len(s.Pairs))
+		k.hash = append(k.hash, string(s.Hash.Bytes()))
+	}
+	k.header = func(index uint32, next, script int, list []on.Sig, salt uint64) []byte {
+		h, msg := on.NeoHeaderUnsigned(index, sets[next].Hash, salt)
+		return on.NeoHeaderBytes(h, sets[script].Sign(msg).Invocation(list), sets[script].Script)
+	}
+	return k
+}
+
+func neo3Kit() neoKit {
+	const magic = 0x334f454e
+	out := polyenv.Key(399)
+	sets := []*on.Neo3Set{on.NewNeo3Set(3, polyenv.KeysFrom(300, 4), out), on.NewNeo3Set(2, polyenv.KeysFrom(310, 3), out), on.NewNeo3Set(3, polyenv.KeysFrom(320, 4), out)}
+	k := neoKit{name: "neo3", router: utils.NEO3_ROUTER, chain: 42, extra: on.MagicBytes(magic)}
+	for _, s := range sets {
+		k.m = append(k.m, s.M)
+		k.n = append(k.n, len(s.Pairs))
+		k.hash = append(k.hash, string(s.Hash.ToByteArray()))
+	}
+	k.header = func(index uint32, next, script int, list []on.Sig, salt uint64) []byte {
+		h, msg := on.Neo3HeaderUnsigned(index, sets[next].Hash, salt, magic)
+		return on.Neo3HeaderBytes(h, sets[script].Sign(msg).Invocation(list), sets[script].Script)
+	}
+	return k
+}
+
+func add(a *mc.Stats, b mc.Stats) {
+	a.States += b.States
+	a.Transitions += b.Transitions
+	if b.MaxDepth > a.MaxDepth {
+		a.MaxDepth = b.MaxDepth
+	}
+	a.Truncated = a.Truncated || b.Truncated
+}
+
 func main() {
 	r = ev.Start("C31", "model_checking")
+	r.Require("ont:accept", "ont:reject", "ont:resubmitted-height", "neo:change", "neo:no-change", "neo3:change", "neo3:no-change")
 	vals = polyenv.Keys(4)
 	polyenv.Setup(0, vals)
 	polyenv.InstallHeightLedger()
-	st := ontPart()
-	fmt.Println(st)
-	r.Finish(map[string]any{})
+	var total mc.Stats
+	per := map[string]any{}
+	so := ontPart()
+	add(&total, so)
+	per["ont"] = map[string]any{"states": so.States, "transitions": so.Transitions, "max_depth": so.MaxDepth, "per_depth": so.PerDepth, "fixpoint": !so.DepthCapped && !so.Truncated}
+	for _, k := range []neoKit{neoKitLegacy(), neo3Kit()} {
+		s := neoPart(k)
+		add(&total, s)
+		per[k.name] = map[string]any{"states": s.States, "transitions": s.Transitions, "max_depth": s.MaxDepth, "per_depth": s.PerDepth, "fixpoint": !s.DepthCapped && !s.Truncated}
+	}
+	if total.Truncated {
+		r.Capped("deadline reached inside a BFS")
+	}
+	fmt.Println("per-router:", per)
+	r.Assume("ECDSA P-256 / SHA-256 are sound", "ONT headers carry no parent linkage check in the contract: heights are independent events",
+		"NEO N3 legacy router (same code modulo client library) is not driven")
+	r.Finish(map[string]any{
+		"rule":                          "ONT: header stored ⇒ ≥ceil(|P|/3) distinct valid members of P = peers(greatest recorded key height < h); recorded peer sets == configs of accepted headers. NEO/N3: tracked change ⇒ index higher ∧ witness script == tracked ∧ ≥m distinct valid signatures",
+		"states":                        total.States,
+		"transitions":                   total.Transitions,
+		"traces_validated_against_impl": total.Transitions,
+		"max_depth":                     total.MaxDepth,
+		"per_router":                    per,
+		"ont_depth":                     r.QT(4, 6),
+		"neo_depth":                     r.QT(3, 4),
+	})
 }
